@@ -19,7 +19,7 @@ def go_env():
     return e
 
 
-def build(scratch_parent=None, shim=True):
+def build(scratch_parent=None, shim=True, harness="vh", race=False):
     """Returns (tmpdir, path of vh binary). Caller removes tmpdir. shim=False keeps real sync.Mutex (race builds)."""
     tmp = tempfile.mkdtemp(prefix="gbverif-", dir=scratch_parent)
     sh = os.path.join(tmp, "shadow")
@@ -52,12 +52,12 @@ def build(scratch_parent=None, shim=True):
         for low, cap, keyt in TYPES:
             open(os.path.join(sh, "zz_verif_%s.go" % low), "w").write(
                 tmpl.replace("@LOW@", low).replace("@CAP@", cap).replace("@KEYT@", keyt))
-    vh = os.path.join(tmp, "vh")
-    shutil.copytree(os.path.join(VERIF, "harness", "vh"), vh)
-    r = subprocess.run(["go", "build", "-tags", "verif", "-o", "vh", "."], cwd=vh, env=go_env(),
-                       capture_output=True, text=True)
+    vh = os.path.join(tmp, harness)
+    shutil.copytree(os.path.join(VERIF, "harness", harness), vh)
+    cmd = ["go", "build"] + (["-race"] if race else []) + (["-tags", "verif"] if shim else []) + ["-o", harness, "."]
+    r = subprocess.run(cmd, cwd=vh, env=go_env(), capture_output=True, text=True)
     if r.returncode != 0:
         msg = r.stderr[-3000:]
         shutil.rmtree(tmp, ignore_errors=True)
         raise ShadowError("harness does not build against the current tree:\n" + msg)
-    return tmp, os.path.join(vh, "vh")
+    return tmp, os.path.join(vh, harness)
